@@ -303,7 +303,25 @@ def check(ctx):
     r4 = Rule("C11-D4-token-structured-parsing", "D4",
               "validator attributes must be recognised on the token structure (syn meta items), not by substring search in the stringified tokens",
               "substring search sees keywords inside message texts and cuts values at the first `)`/`,`: constraints are dropped or invented")
-    vp = [f for f in S.fns if f.owner == "ValidatorParser" and f.body is not None]
+    vp_all = [f for f in S.fns if f.owner == "ValidatorParser" and f.body is not None]
+    # only what parse_validator_attributes (transitively) calls recognises attributes; helpers nothing calls any more are not part of the tool
+    byname = {f.name: f for f in vp_all}
+    live = set()
+    work = ["parse_validator_attributes"]
+    while work:
+        nm = work.pop()
+        if nm in live or nm not in byname:
+            continue
+        live.add(nm)
+        for e in walk_block(byname[nm].body):
+            if e.get("k") == "mcall" and e["method"] in byname:
+                work.append(e["method"])
+            if e.get("k") == "call" and e["func"].get("k") == "path" and e["func"]["segs"][-1] in byname:
+                work.append(e["func"]["segs"][-1])
+    vp = [f for f in vp_all if f.name in live]
+    for f in vp_all:
+        if f.name not in live and f.name not in ("new", "default"):
+            r4.notes.append("%s is not called from parse_validator_attributes any more (dead helper, kept for its unit tests)" % f.name)
     n_ok = 0
     for f in vp:
         lits = []
@@ -336,14 +354,33 @@ def check(ctx):
             r5.bad(V(r5.id, "ValidatorParser::parse_validator_attributes", "no-attribute-loop", "no loop over the attributes found"))
         for lp in loops:
             from srclib import children
-            stack = list(x for st in lp["body"] for x in stmt_exprs(st))
+            inner_locals = set()
+
+            def collect_lets(stmts):
+                for st_ in stmts or []:
+                    if isinstance(st_, dict) and st_.get("k") == "let":
+                        from srclib import pat_bindings
+                        inner_locals.update(pat_bindings(st_["pat"]))
+                    for e_ in (stmt_exprs(st_) if isinstance(st_, dict) else []):
+                        for y in walk(e_):
+                            for key in ("then", "stmts", "body"):
+                                v_ = y.get(key)
+                                if isinstance(v_, list):
+                                    collect_lets(v_)
+                            if y.get("k") == "closure" and isinstance(y.get("body"), dict) and y["body"].get("k") == "block":
+                                collect_lets(y["body"]["stmts"])
+            collect_lets(lp["body"])
+            stack = list((x, False) for st in lp["body"] for x in stmt_exprs(st))
             while stack:
-                x = stack.pop()
+                x, in_closure = stack.pop()
                 if not isinstance(x, dict):
                     continue
-                if x.get("k") in ("break", "return"):
+                if x.get("k") in ("break", "return") and not in_closure:
                     r5.bad(V(r5.id, "ValidatorParser::parse_validator_attributes", "attribute-loop-stops-early:%s" % x["k"], "the attribute loop can stop before the last #[validate(..)] attribute", pva.file, x.get("ln")))
                 if x.get("k") == "assign" and x["l"].get("k") == "field":
+                    base_ = x["l"]["base"]
+                    if base_.get("k") == "path" and len(base_["segs"]) == 1 and base_["segs"][0] in inner_locals:
+                        continue      # a value built afresh for this item (not the accumulator that lives across attributes)
                     rhs = x["r"]
                     rt = expr_text(rhs)
                     fld = x["l"]["member"]
@@ -353,9 +390,9 @@ def check(ctx):
                     else:
                         r5.bad(V(r5.id, "ValidatorParser::parse_validator_attributes", "accumulator-reset:%s" % fld,
                                  "`%s = %s` inside the attribute loop can overwrite a constraint found in an earlier attribute" % (expr_text(x["l"]), rt[:60]), pva.file, x.get("ln")))
-                if x.get("k") == "closure":
-                    continue
-                stack.extend(children(x))
+                # a per-item closure (parse_nested_meta) runs once per list item: its assignments accumulate like the loop body's,
+                # its own `return`/`?` only end the walk over that attribute
+                stack.extend((c_, in_closure or x.get("k") == "closure") for c_ in children(x))
     r5.require_floor(3, "accumulator assignments")
     rules.append(r5)
 
